@@ -18,6 +18,17 @@ mod verif_kani {
         assert!(ch_width(' ') == 1);
     }
 
+    // C10's per-character widths, for every char: with the unicode-width feature the table value (0 where the table has none:
+    // control characters), without it 1 below U+1100 and 2 from there on
+    #[kani::proof]
+    fn k1_width_rule() {
+        let c: char = kani::any();
+        #[cfg(feature = "unicode-width")]
+        assert!(ch_width(c) == unicode_width::UnicodeWidthChar::width(c).unwrap_or(0));
+        #[cfg(not(feature = "unicode-width"))]
+        assert!(ch_width(c) == if (c as u32) < 0x1100 { 1 } else { 2 });
+    }
+
     // reachability / vacuity guard: the claim below is false and must be refuted
     #[kani::proof]
     #[kani::should_panic]
